@@ -35,6 +35,19 @@ TWriteBegin ==
   /\ memTs'[Ev.c] = Ev.memts
   /\ curLen' = Ev.len
 
+\* length word and data in ONE write call: PhysLen followed by PhysData(fl.need - 1), written out as one action (TLC does
+\* not evaluate \cdot)
+PhysLenData ==
+  /\ MayDo("len") /\ "data" \in fl.pend /\ fl.done <= fl.need - 1
+  /\ (AnyOrder \/ \A q \in fl.pend \ {"len"} : Rank("data") <= Rank(q))
+  /\ diskSec' = [s \in Sectors |->
+                   IF s \in (fl.at + fl.done)..(fl.at + fl.need - 1)
+                   THEN [c |-> fl.c, v |-> fl.v, i |-> s - fl.at, n |-> fl.need,
+                         lenv |-> IF s = fl.at THEN fl.len ELSE diskSec[s].lenv, dlen |-> fl.len]
+                   ELSE IF s = fl.at THEN [diskSec[s] EXCEPT !.lenv = fl.len] ELSE diskSec[s]]
+  /\ fl' = [fl EXCEPT !.done = fl.need, !.pend = @ \ {"len", "data"}]
+  /\ UNCHANGED <<memOff, memTs, memUsed, diskOff, diskTs, model, taint, nver>>
+
 TPhys ==
   /\ IsEvent("phys") /\ UNCHANGED curLen
   /\ \/ /\ Ev.kind = "hoff" /\ Ev.slotc = fl.c /\ Ev.sec = fl.at /\ Ev.cnt = fl.need /\ PhysHdrOff
@@ -42,7 +55,7 @@ TPhys ==
      \/ /\ Ev.kind = "len" /\ Ev.at = fl.at /\ Ev.lenword = curLen /\ PhysLen
      \/ /\ Ev.kind = "data" /\ Ev.at = fl.at /\ Ev.n = curLen /\ PhysData(fl.need - 1)
      \/ /\ Ev.kind = "lendata" /\ Ev.at = fl.at /\ Ev.lenword = curLen /\ Ev.n = curLen + 4
-        /\ (PhysLen \cdot PhysData(fl.need - 1))
+        /\ PhysLenData
 
 \* a torn data write covering `n` bytes (0 < n < curLen): whole sectors before the torn one are new
 TPhysTorn ==
